@@ -53,7 +53,7 @@ NodeInit(e) ==
      lk |-> <<>>, pendSearch |-> <<>>, sidAid |-> <<>>, closed |-> <<>>, yields |-> <<>>, started |-> <<>>,
      rounds |-> <<>>, succ |-> <<>>,
      answered |-> FALSE, waits |-> <<>>, qsent |-> 0, started_at |-> now, bootstate |-> "AwaitStart",
-     annClosed |-> <<>>, lastSentTo |-> <<>>, samples |-> <<>>, lastAns |-> <<>>, lastNamed |-> <<>>, qsince |-> <<>>, admitted |-> {}, mechn |-> 0]
+     annClosed |-> <<>>, lastSentTo |-> <<>>, samples |-> <<>>, lastAns |-> <<>>, lastNamed |-> <<>>, qsince |-> <<>>, admitted |-> {}, mechn |-> 0, raid |-> "", cursor |-> -1, bphase |-> [b |-> -1, list |-> <<>>, i |-> 0], bootn |-> 0]
 
 Init == l = 1 /\ S = <<>> /\ G = [universe |-> <<>>, plan |-> <<>>, coop |-> FALSE, proj |-> FALSE, twins |-> <<>>, responsive |-> <<>>, searching |-> <<>>]
 
@@ -224,7 +224,10 @@ RefreshRoundStep(e) ==
     /\ Chk("C18", "at-most-one-round-per-6s-plus-one-per-bootstrap-completion (20 min window)", l, ok(1200000))
     /\ Chk("C18", "a-round-is-caused-by-the-refresh-timer-or-a-bootstrap-completion", l,
            nd.step.open /\ (nd.step.kind = "bootstrap" \/ (nd.step.kind = "timer" /\ nd.step.what = "TableRefresh")))
-    /\ Upd(e, [nd EXCEPT !.rounds = rounds, !.step = IF nd.step.open THEN nd.step @@ [cursor |-> e.cursor] ELSE nd.step]) /\ UNCHANGED G
+    \* the mechanism: the cursor walks 0, 1, ..., 159, 0, ... one bucket per round
+    /\ MDrift("refresh-cursor-advances-by-one", l, e.cursor = (nd.cursor + 1) % 160)
+    /\ Upd(e, [nd EXCEPT !.rounds = rounds, !.cursor = e.cursor,
+                         !.step = IF nd.step.open THEN nd.step @@ [cursor |-> e.cursor] ELSE nd.step]) /\ UNCHANGED G
 
 \* ------------------------------------------------------------------ C15: bootstrap and its waiters
 BootWaitStep(e) ==
@@ -358,6 +361,7 @@ ClosedStep(e) ==
     /\ UNCHANGED G
 
 EndStep(e) ==
+    /\ \A n \in DOMAIN S : S[n].bootn > 0 => PrintT(<<"BOOTSTATS", S[n].bootn>>)
     /\ \A n \in DOMAIN S : S[n].mechn > 0 =>
           PrintT(<<"MECHSTATS", S[n].mechn, Cardinality(DOMAIN S[n].lk),
                    Cardinality({a \in DOMAIN S[n].lk : S[n].lk[a].mech.why = "drift"}),
@@ -373,6 +377,28 @@ EndStep(e) ==
     /\ UNCHANGED <<S, G>>
 
 \* ------------------------------------------------------------------ steps
+
+\* the mechanism's prediction of the bucket phase of a bootstrap (bootstrap.rs nodes_to_bootstrap_bucket): for bucket number b the
+\* worker asks the first 8 questionable, not recently asked contacts of -- b < 2: the table walk towards the own id with bit b
+\* flipped; otherwise: buckets b-2, b-1, b of the table in slot order.  Compared as DRIFT only, at the first query of a batch
+\* (the table the worker chose from is the table then) and then query by query.
+BootBucketPred(nd, b) ==
+    LET tt == [nd.t EXCEPT !.self = nd.id]
+        Bk(i) == IF i >= 1 /\ i <= Len(tt.buckets) THEN tt.buckets[i] ELSE <<>>
+        src == IF b <= 1 THEN Closest(tt, FlipBit160(nd.id, b), now) ELSE Bk(b - 1) \o Bk(b) \o Bk(b + 1)
+        w == SelectSeq(src, LAMBDA c : Status(c, now) = QUEST /\ ~RecentlyRequested(c, now)) IN
+    [i \in 1..Min2(8, Len(w)) |-> w[i].addr]
+IsBootBucketQuery(nd, m) ==
+    /\ m.y = "q" /\ m.q = "find_node" /\ m.pfx # nd.raid /\ m.pfx \notin DOMAIN nd.lk
+    /\ m.a.idl = 20 /\ m.a.targetl = 20 /\ m.a.target # nd.id
+BootPhaseNext(nd, e) ==
+    LET b == LCP160(nd.id, e.m.a.target)
+        cont == nd.bphase.b = b /\ nd.bphase.i < Len(nd.bphase.list)
+        L == IF cont THEN nd.bphase.list ELSE BootBucketPred(nd, b)
+        i == IF cont THEN nd.bphase.i + 1 ELSE 1 IN
+    \* a new batch begins only when the previous one was sent out completely
+    [b |-> b, list |-> L, i |-> i, ok |-> i <= Len(L) /\ L[i] = e.dst /\ (cont \/ nd.bphase.i = Len(nd.bphase.list))]
+
 IsNode(e) == Has(e, "node") /\ e.node \in DOMAIN S
 
 SendStep(e) ==
@@ -408,9 +434,12 @@ SendStep(e) ==
                    IF nd.aport = -1 THEN m.a.implied ELSE (~m.a.implied /\ m.a.port = nd.aport))
             /\ Upd(e, [nd EXCEPT !.step = st2, !.usedpfx = @ \cup {aid}, !.qsent = @ + 1, !.sentpairs = @ \cup {<<e.dst, m.t>>}, !.lastSentTo = FSet(@, e.dst, now),
                         !.lk[aid].nann = @ + 1, !.lk[aid].anndst = @ \cup {e.dst}])
-       ELSE Upd(e, [nd EXCEPT !.step = st2, !.usedpfx = IF isq THEN @ \cup {aid} ELSE @, !.qsent = @ + (IF isq THEN 1 ELSE 0),
+       ELSE /\ (IsBootBucketQuery(nd, m) => MDrift("bootstrap-bucket-phase-targets", l, BootPhaseNext(nd, e).ok))
+            /\ Upd(e, [nd EXCEPT !.step = st2, !.usedpfx = IF isq THEN @ \cup {aid} ELSE @, !.qsent = @ + (IF isq THEN 1 ELSE 0),
                              !.sentpairs = IF isq THEN @ \cup {<<e.dst, m.t>>} ELSE @,
-                             !.lastSentTo = IF isq THEN FSet(@, e.dst, now) ELSE @])
+                             !.lastSentTo = IF isq THEN FSet(@, e.dst, now) ELSE @,
+                             !.bphase = IF IsBootBucketQuery(nd, m) THEN LET n == BootPhaseNext(nd, e) IN [b |-> n.b, list |-> n.list, i |-> n.i] ELSE @,
+                             !.bootn = @ + (IF IsBootBucketQuery(nd, m) THEN 1 ELSE 0)])
     /\ UNCHANGED G
 
 RecvStep(e) ==
@@ -583,13 +612,15 @@ HEndStep(e) ==
 WorkerTable(e) ==
     LET nd == Nd(e)  post == ApplyDiff(nd.t, e.ch) IN
     /\ (Len(e.ch[2]) > 0 => TableChecks(nd, post, l))
-    /\ Upd(e, [nd EXCEPT !.t = post, !.bootstate = IF e.ev = "BootState" THEN e.to ELSE @])
+    /\ (e.ev = "BootState" => MDrift("bootstrap-bucket-phase-batch-complete", l, nd.bphase.i = Len(nd.bphase.list)))
+    /\ Upd(e, [nd EXCEPT !.t = post, !.bootstate = IF e.ev = "BootState" THEN e.to ELSE @,
+                         !.bphase = IF e.ev = "BootState" THEN [b |-> -1, list |-> <<>>, i |-> 0] ELSE @])
     /\ UNCHANGED G
 
 Step(e) ==
     CASE e.ev = "Reset" -> S' = <<>> /\ G' = [universe |-> <<>>, plan |-> <<>>, coop |-> FALSE, proj |-> FALSE, twins |-> <<>>, responsive |-> <<>>, searching |-> <<>>]
       [] e.ev = "NodeCfg" -> S' = FSet(S, e.node, NodeInit(e)) /\ UNCHANGED G
-      [] e.ev = "NodeStart" -> Upd(e, [Nd(e) EXCEPT !.id = e.id, !.usedpfx = @ \cup {e.refresh_aid}, !.t.self = e.id]) /\ UNCHANGED G
+      [] e.ev = "NodeStart" -> Upd(e, [Nd(e) EXCEPT !.id = e.id, !.usedpfx = @ \cup {e.refresh_aid}, !.t.self = e.id, !.raid = e.refresh_aid]) /\ UNCHANGED G
       [] e.ev = "Send" -> SendStep(e)
       [] e.ev = "Recv" -> RecvStep(e)
       [] e.ev = "SockRecv" -> SockRecvStep(e)
